@@ -2,6 +2,8 @@ SPECIFICATION Spec
 CONSTANTS
   MaxDepth = 2
   MaxTens = 4
+  Judge = TRUE
+  Record = FALSE
   Dev = "write"
 VIEW view
 INVARIANT PlainPureInv
